@@ -711,9 +711,13 @@ func c14Benign(r *rng, cmd string, root string) []string {
 	return nil
 }
 
-type c14FlagPool struct{ name string; vals []string }
+type c14FlagPool struct {
+	name string
+	vals []string
+}
 
 var c14Dates = []string{"2020-01-01", "2021-06-01", "0001-01-01", "0000-01-01", "9999-12-31", "2020-02-30", "", "x", "-1", "20200101"}
+
 // (the 64-bit extremes and a value that is an absurd but representable count: seeded change C14c-last-preallocates
 // sized an allocation with --last and was missed while the largest values were 2^31-1 and an unparsable one)
 var c14Ints = []string{"0", "1", "-1", "-5", "3", "2147483647", "-2147483648", "99999999999999999999", "x", "",
@@ -822,7 +826,7 @@ func genC14(out *caseWriter, seed uint64, n int, args []string) error {
 		case k < 65: // arbitrary bytes and mutated journals, all commands
 			cmd := pick(r, c14Cmds)
 			var text string
-			switch r.intn(5) {
+			switch r.intn(6) {
 			case 0:
 				text = randBytes(r, r.intn(300))
 			case 1:
@@ -832,6 +836,17 @@ func genC14(out *caseWriter, seed uint64, n int, args []string) error {
 				}
 			case 2:
 				text = mutateText(r, c14SmallJournal)
+			case 3:
+				// account life cycles (open, book, flatten, close, re-open, book again, assertions in between), valid
+				// or broken by one of C04's mutations, unmutated text: state kept per account across a close must not
+				// crash a later step (seeded change C14d-held-index-nil-after-close panicked on a booking after a re-open)
+				g := genLifecycle(r)
+				if r.chance(40) {
+					mutateC04(r, g, pick(r, c04Mutations))
+				}
+				j := g.j
+				r.shuffle(len(j), func(a, b int) { j[a], j[b] = j[b], j[a] })
+				text = j.Text()
 			default:
 				o := defaultOpts(r)
 				o.nTxn = r.rangeInt(1, 8)
